@@ -480,6 +480,18 @@ func genInt(rng *rand.Rand, bits int) int64 {
 	return v
 }
 
+func genBounded(rng *rand.Rand, max uint64) uint64 {
+	switch rng.IntN(5) {
+	case 0:
+		return 0
+	case 1:
+		return max
+	case 2:
+		return max - uint64(rng.IntN(3))
+	}
+	return rng.Uint64N(max) // max < 2^64-1 for every mixed pair
+}
+
 func genUint(rng *rand.Rand, bits int) uint64 {
 	hi := ^uint64(0)
 	if bits < 64 {
@@ -596,6 +608,17 @@ func genTime(rng *rand.Rand, sem Sem, o ValOpt) time.Time {
 		}
 		return TimeFromMicros(us, 0, time.UTC)
 	case SemDate:
+		if rng.IntN(8) == 0 {
+			// date32 reaches further than int64 microseconds: the whole int32 day range
+			day := int64(int32(rng.Uint32()))
+			switch rng.IntN(4) {
+			case 0:
+				day = math.MaxInt32
+			case 1:
+				day = math.MinInt32
+			}
+			return time.Unix(day*86400+int64(rng.IntN(86400)), int64(rng.IntN(1_000_000))*1000).In(zones[rng.IntN(len(zones))])
+		}
 		us := genMicros(rng)
 		if rng.IntN(3) == 0 { // a plain calendar date
 			us = floorDiv(us, 86_400_000_000) * 86_400_000_000
@@ -679,9 +702,17 @@ func GenValue(rng *rand.Rand, sp *Spec, v reflect.Value, o ValOpt, depth int) {
 	}
 	switch sp.Sem {
 	case SemInt:
-		v.SetInt(genInt(rng, sp.Bits))
+		if sp.Max > 0 {
+			v.SetInt(int64(genBounded(rng, sp.Max)))
+		} else {
+			v.SetInt(genInt(rng, sp.Bits))
+		}
 	case SemUint:
-		v.SetUint(genUint(rng, sp.Bits))
+		if sp.Max > 0 {
+			v.SetUint(genBounded(rng, sp.Max))
+		} else {
+			v.SetUint(genUint(rng, sp.Bits))
+		}
 	case SemFloat:
 		v.SetFloat(genFloat(rng, sp.Bits))
 	case SemBool:
@@ -778,6 +809,10 @@ func WalkClasses(sp *Spec, v reflect.Value, hit func(string)) {
 	}
 	switch sp.Sem {
 	case SemInt:
+		if sp.Max > 0 {
+			hit("int:mixed-signedness")
+			break
+		}
 		lo, hi := int64(-1)<<(sp.Bits-1), int64(1)<<(sp.Bits-1)-1
 		if v.Int() == lo {
 			hit(fmt.Sprintf("int%d:min", sp.Bits))
@@ -785,6 +820,10 @@ func WalkClasses(sp *Spec, v reflect.Value, hit func(string)) {
 			hit(fmt.Sprintf("int%d:max", sp.Bits))
 		}
 	case SemUint:
+		if sp.Max > 0 {
+			hit("int:mixed-signedness")
+			break
+		}
 		if sp.Bits == 64 && v.Uint() > math.MaxInt64 {
 			hit("uint64:above-int64")
 		}
@@ -823,6 +862,9 @@ func WalkClasses(sp *Spec, v reflect.Value, hit func(string)) {
 		hit("timestamp:" + tsClass(v.Interface().(time.Time)))
 	case SemDate:
 		hit("date:" + dateClass(v.Interface().(time.Time)))
+		if d := EpochDay(v.Interface().(time.Time)); d > 106751991 || d < -106751991 {
+			hit("date:beyond-microsecond-range")
+		}
 	case SemTimeOfDay:
 		hit("time-of-day")
 	case SemDuration:
@@ -853,6 +895,16 @@ func WalkClasses(sp *Spec, v reflect.Value, hit func(string)) {
 			hit("map:string-key")
 		} else {
 			hit("map:int-key")
+		}
+		if sp.Elem.Ptr && !v.IsNil() {
+			it := v.MapRange()
+			for it.Next() {
+				if it.Value().IsNil() {
+					hit("map:nil-value")
+				} else {
+					hit("map:pointer-value")
+				}
+			}
 		}
 	case SemStruct:
 		hit("struct")
